@@ -174,26 +174,50 @@ def build_field(geom, fs, sub):
 
 
 def cases(rng, tier):
+    """all streams, interleaved evenly so that a run cut short by the time budget still covers every kind"""
+    items = []
+    for pos, stream in enumerate(_streams(rng, tier)):
+        stream = list(stream)
+        items += [((k + 0.5) / len(stream), pos, c) for k, c in enumerate(stream)]
+    items.sort(key=lambda t: (t[0], t[1]))
+    for _, _, c in items:
+        yield c
+
+
+def _streams(rng, tier):
     q = tier == "quick"
-    for regime, cnt in (("exact", 700 if q else 5000), ("tol", 450 if q else 3000)):
+
+    def rt(regime, cnt):
         for _ in range(cnt):
             g = gen_geom(rng, tier, regime)
             yield dict(kind="rt", geom=g, fs=gen_fieldspec(rng, g), sub=rng.getrandbits(32),
                        name=rng.choice([None, None, "m", "field_1"]), unit=rng.choice([None, None, "T", ""]))
-    for _ in range(450 if q else 3500):
-        regime = rng.choice(["exact", "tol", "tol"])
-        g = gen_geom(rng, tier, regime, ndim=rng.choice([1, 2, 3]), force3=True)
-        delta = rng.choice(["3/10", "1/20", "1/100", "1/100000000", "1/1000000000"])
-        yield dict(kind="uneven", geom=g, fs=gen_fieldspec(rng, g, False), sub=rng.getrandbits(32), delta=delta,
-                   erase=[k for k in GEOM_ATTRS if rng.random() < 0.5])
-    for _ in range(350 if q else 2500):
-        yield dict(kind="hand", sub=rng.getrandbits(32))
-    muts = ["no_nvdim", "nvdim_lt1", "nvdim_float", "nvdim_npint", "no_vdims_dim", "not_dataarray", "cell_len", "cell_scaled",
-            "pmax_shift", "swap_corners", "dup_labels", "nvdim_mismatch", "scalar_with_vdims_dim", "transpose", "drop_coord",
-            "dim_named_vdims", "export_badargs", "pmin_only_single"]
-    for i in range(540 if q else 4000):
-        g = gen_geom(rng, tier, "exact")
-        yield dict(kind="bad", geom=g, fs=gen_fieldspec(rng, g, False), sub=rng.getrandbits(32), mut=muts[i % len(muts)])
+
+    def uneven(cnt):
+        for _ in range(cnt):
+            regime = rng.choice(["exact", "tol", "tol"])
+            g = gen_geom(rng, tier, regime, ndim=rng.choice([1, 2, 3]), force3=True)
+            delta = rng.choice(["3/10", "1/20", "1/100", "1/100000000", "1/1000000000"])
+            yield dict(kind="uneven", geom=g, fs=gen_fieldspec(rng, g, False), sub=rng.getrandbits(32), delta=delta,
+                       erase=[k for k in GEOM_ATTRS if rng.random() < 0.5])
+
+    def hand(cnt):
+        for _ in range(cnt):
+            yield dict(kind="hand", sub=rng.getrandbits(32))
+
+    def bad(cnt):
+        muts = ["no_nvdim", "nvdim_lt1", "nvdim_float", "nvdim_npint", "no_vdims_dim", "not_dataarray", "cell_len", "cell_scaled",
+                "pmax_shift", "swap_corners", "dup_labels", "nvdim_mismatch", "scalar_with_vdims_dim", "transpose", "drop_coord",
+                "dim_named_vdims", "export_badargs", "pmin_only_single"]
+        for i in range(cnt):
+            g = gen_geom(rng, tier, "exact")
+            yield dict(kind="bad", geom=g, fs=gen_fieldspec(rng, g, False), sub=rng.getrandbits(32), mut=muts[i % len(muts)])
+
+    yield rt("exact", 700 if q else 5000)
+    yield rt("tol", 450 if q else 3000)
+    yield uneven(450 if q else 3500)
+    yield hand(350 if q else 2500)
+    yield bad(540 if q else 4000)
 
 
 # --------------------------------------------------------------------------- running the real code
